@@ -1,5 +1,6 @@
 From Coq Require Extraction.
 From Coq Require Import ExtrOcamlBasic.
-From AIT Require Import Base.Vio Base.Qx Base.Mdp Base.MdpExec C02.Model C02.Spec.
+From AIT Require Import Base.Vio Base.Qx Base.Mdp Base.MdpExec C02.Model C02.Spec C04.Model C02.ModelWitness.
 Extraction "model.ml" vio_kit wf_mdpb wf_mdp1b EV_r tau_step_r vbest ip_run prune_pw rtbss_sim ops_ok obs_cleanb check_vf
-  exec_return rew_at tau_step possible schedule.
+  exec_return rew_at tau_step possible schedule
+  wit_lists wit_action cert_oracle none_cert_ok proj_row.
